@@ -1,6 +1,14 @@
 """Budgets per property and tier.  `runs` / `fault_runs` are upper bounds; `wall_s` stops submission."""
 
 PLANS = {
+    "C03": ("asm", {
+        "quick": {"runs": 600, "fault_runs": 0, "wall_s": 70, "per_task_s": 120},
+        "thorough": {"runs": 60000, "fault_runs": 0, "wall_s": 900, "per_task_s": 300},
+    }),
+    "C05": ("dyn", {
+        "quick": {"runs": 400, "fault_runs": 100, "wall_s": 70, "per_task_s": 120},
+        "thorough": {"runs": 40000, "fault_runs": 10000, "wall_s": 900, "per_task_s": 300},
+    }),
     "C14": ("fresh", {
         "quick": {"runs": 220, "fault_runs": 60, "wall_s": 70, "per_task_s": 120},
         "thorough": {"runs": 20000, "fault_runs": 5000, "wall_s": 900, "per_task_s": 300},
